@@ -834,8 +834,12 @@ func (m *Manager) computeParentMap() map[types.Hash256]int {
 func updateTxnProofs(txn *types.V2Transaction, updateElementProof func(*types.StateElement), numLeaves uint64) (valid bool) {
 	valid = true
 	updateProof := func(e *types.StateElement) {
+		// ephemeral elements have no leaf yet: nothing to check or update
+		if e.LeafIndex == types.UnassignedLeafIndex {
+			return
+		}
 		valid = valid && e.LeafIndex < numLeaves
-		if !valid || e.LeafIndex == types.UnassignedLeafIndex {
+		if !valid {
 			return
 		}
 		*e = e.Copy()
